@@ -790,6 +790,9 @@ class Hdf5Saver:
         name = getattr(obj, 'name', 'void')
         h5gr.attrs['name'] = name
         self.save(obj.descr, subpath + 'descr')
+        if obj.subdtype is not None:  # sub-array dtype: `descr` only knows the total size
+            h5gr.attrs['subarray_shape'] = np.array(obj.subdtype[1], np.intp)
+            self.save(obj.subdtype[0], subpath + 'subarray_base')
         return h5gr
 
     if parse_version(np.__version__) < parse_version('1.20.0'):
@@ -1142,8 +1145,14 @@ class Hdf5Loader:
     def load_dtype(self, h5gr, type_info, subpath):
         """Load a :class:`numpy.dtype`."""
         name = self.get_attr(h5gr, 'name')
-        if name.startswith('void'):
-            descr = self.load(subpath + 'descr')
+        descr = self.load(subpath + 'descr') if 'descr' in h5gr else None
+        if 'subarray_base' in h5gr:
+            shape = tuple(int(i) for i in self.get_attr(h5gr, 'subarray_shape'))
+            obj = np.dtype((self.load(subpath + 'subarray_base'), shape))
+        elif descr is not None and len(descr) == 1 and descr[0][0] == '':
+            # not structured: the type string (unlike the name) keeps the byte order and the length of strings
+            obj = np.dtype(descr[0][1])
+        elif name.startswith('void'):
             obj = np.dtype(descr)
         else:
             obj = np.dtype(name)
